@@ -10,6 +10,13 @@
 // stage in which Close returned is inferred from side effects only (killed by
 // SIGKILL / SIGTERM seen / end-of-file seen / neither), never from latency.
 //
+// Two further dimensions: the stream is created with or without a standard
+// error receiver, and the agent may start a detached descendant (setsid) that
+// inherits its standard error and/or output and/or input and keeps them open
+// until the harness releases it — after Close has returned, or after the
+// watchdog has expired (then Close hangs: it waited for a holder other than the
+// agent). Timing-free: Close returns, and the agent itself has been waited for.
+//
 // The op line is the behaviour (termination delay, the two grace periods as
 // extracted from the source, reaction delays) plus the observed stage; the
 // Lean ladder model must return in the same stage. Reaction times are chosen
@@ -31,6 +38,7 @@ import (
 	"go/ast"
 	"go/parser"
 	"go/token"
+	"io"
 	"os"
 	"os/exec"
 	"os/signal"
@@ -50,6 +58,24 @@ func nowMs() int64 { return time.Now().UnixNano() / 1e6 }
 
 // ------------------------------------------------------------------- agent
 
+// helperMain is the detached descendant of an agent: it holds whatever standard
+// streams it inherited until the parent of the whole experiment releases it
+// (a file appears) or its maximum lifetime is over, whichever comes first.
+func helperMain(args []string) {
+	release := args[1]
+	maxLife, _ := strconv.Atoi(args[2])
+	t0 := time.Now()
+	for time.Since(t0) < time.Duration(maxLife)*time.Millisecond {
+		if _, err := os.Stat(release); err == nil {
+			break
+		}
+		time.Sleep(25 * time.Millisecond)
+	}
+	if jf, err := os.OpenFile(args[0], os.O_WRONLY|os.O_APPEND, 0o644); err == nil {
+		fmt.Fprintf(jf, "helper-exit %d\n", nowMs())
+	}
+}
+
 func agentMain(args []string) {
 	self, _ := strconv.Atoi(args[0])
 	onStdin, _ := strconv.Atoi(args[1])
@@ -58,6 +84,27 @@ func agentMain(args []string) {
 	if err != nil {
 		os.Exit(3)
 	}
+	// A descendant that keeps some of this process' standard streams open and
+	// outlives it (an SSH ControlMaster, a credential helper, …).
+	if holders := args[4]; holders != "-" {
+		me, _ := os.Executable()
+		h := exec.Command(me, "c35helper", args[3], args[5], args[6])
+		h.SysProcAttr = &syscall.SysProcAttr{Setsid: true}
+		if strings.Contains(holders, "i") {
+			h.Stdin = os.Stdin
+		}
+		if strings.Contains(holders, "o") {
+			h.Stdout = os.Stdout
+		}
+		if strings.Contains(holders, "e") {
+			h.Stderr = os.Stderr
+		}
+		if err := h.Start(); err != nil {
+			os.Exit(4)
+		}
+		fmt.Fprintf(jf, "helper-start %d\n", nowMs())
+	}
+	fmt.Fprintln(os.Stderr, "agent: started")
 	var mu sync.Mutex
 	log := func(tag string) {
 		mu.Lock()
@@ -124,6 +171,15 @@ type spec struct {
 	delay, g1, g2        int // ms
 	self, onStdin, onTerm int // ms, -1: none
 	pre                  bool // let the agent exit before Close is called (self == 0)
+	holders              string // standard streams inherited by a detached descendant that outlives the agent: subset of "eoi", "" none
+	recv                 bool   // NewStream gets a standard error receiver
+}
+
+func (s spec) holderField() string {
+	if s.holders == "" {
+		return "-"
+	}
+	return s.holders
 }
 
 func optField(v int) string {
@@ -134,7 +190,11 @@ func optField(v int) string {
 }
 
 func (s spec) line(obs string) string {
-	return fmt.Sprintf("%d %d %d %s %s %s 0 = %s", s.delay, s.g1, s.g2, optField(s.self), optField(s.onStdin), optField(s.onTerm), obs)
+	r := "N"
+	if s.recv {
+		r = "R"
+	}
+	return fmt.Sprintf("%d %d %d %s %s %s 0 %s %s = %s", s.delay, s.g1, s.g2, optField(s.self), optField(s.onStdin), optField(s.onTerm), s.holderField(), r, obs)
 }
 
 // predict is the oracle's arithmetic: exit time and stage, assuming prompt reactions.
@@ -171,6 +231,8 @@ type outcome struct {
 	goSent       int64
 	close0       int64
 	close1       int64
+	zombie       bool // at the watchdog's expiry the agent was an unreaped zombie
+	stuck        bool // Close did not even return after the descendant was released
 	inconclusive string
 	notifyLag    int64   // ms between the agent's exit record and Close's return; -1 unknown
 	beats        []int64 // times of the agent's heartbeats
@@ -185,7 +247,7 @@ const (
 	heartbeat     = 50   // ms between agent heartbeats
 	slowNotify    = 250  // ms from the agent's exit record to Close's return tolerated when stages differ
 	lateReturn    = 3000 // ms between the moment the exit was due and Close's return tolerated
-	hangAllowance = 15000
+	hangAllowance = 30000 // ms beyond the ladder's maximum before Close is declared hung
 )
 
 var (
@@ -196,6 +258,21 @@ var (
 
 // hostProbe records the intervals in which this process was not scheduled on
 // time: a 10 ms sleep that overshoots by more than slowHost.
+// lockedBuffer is the standard error receiver handed to NewStream.
+type lockedBuffer struct {
+	mu sync.Mutex
+	b  []byte
+}
+
+func (l *lockedBuffer) Write(p []byte) (int, error) {
+	l.mu.Lock()
+	if len(l.b) < 4096 {
+		l.b = append(l.b, p...)
+	}
+	l.mu.Unlock()
+	return len(p), nil
+}
+
 func hostProbe(stop <-chan struct{}) {
 	for {
 		select {
@@ -237,9 +314,18 @@ func runCase(s spec, dir string, id int, ready func(), start <-chan struct{}) (o
 	jpath := filepath.Join(dir, fmt.Sprintf("agent-%d.journal", id))
 	os.Remove(jpath)
 	defer os.Remove(jpath)
-	cmd := exec.Command(self, "c35agent", strconv.Itoa(s.self), strconv.Itoa(s.onStdin), strconv.Itoa(s.onTerm), jpath)
+	release := filepath.Join(dir, fmt.Sprintf("agent-%d.release", id))
+	os.Remove(release)
+	defer os.Remove(release)
+	helperLife := s.delay + s.g1 + s.g2 + 2*hangAllowance + 20000
+	cmd := exec.Command(self, "c35agent", strconv.Itoa(s.self), strconv.Itoa(s.onStdin), strconv.Itoa(s.onTerm), jpath,
+		s.holderField(), release, strconv.Itoa(helperLife))
 	cmd.Env = append(os.Environ(), "GOMAXPROCS=2", "GOGC=off")
-	stream, err := transport.NewStream(cmd, nil)
+	var receiver io.Writer
+	if s.recv {
+		receiver = &lockedBuffer{}
+	}
+	stream, err := transport.NewStream(cmd, receiver)
 	if err != nil {
 		panic(err)
 	}
@@ -272,18 +358,46 @@ func runCase(s spec, dir string, id int, ready func(), start <-chan struct{}) (o
 		close(done)
 	}()
 	limit := time.Duration(s.delay+s.g1+s.g2+hangAllowance) * time.Millisecond
+	releaseHelper := func() {
+		if f, err := os.Create(release); err == nil {
+			f.Close()
+		}
+	}
 	select {
 	case <-done:
+		// Close returned while the descendant (if any) still holds its streams.
+		releaseHelper()
 	case <-time.After(limit):
 		o.hang = true
+		if data, err := os.ReadFile(fmt.Sprintf("/proc/%d/stat", cmd.Process.Pid)); err == nil {
+			if i := strings.LastIndexByte(string(data), ')'); i >= 0 && i+2 < len(data) && data[i+2] == 'Z' {
+				o.zombie = true
+			}
+		}
+		releaseHelper()
 		cmd.Process.Kill()
-		<-done
+		select {
+		case <-done:
+		case <-time.After(time.Duration(hangAllowance) * time.Millisecond):
+			o.stuck = true // even without the descendant Close does not come back; its goroutine is abandoned
+			o.close1 = nowMs()
+		}
+	}
+	// the descendant must be gone before the journal is read and removed
+	if s.holders != "" {
+		for t0 := time.Now(); time.Since(t0) < 10*time.Second; time.Sleep(20 * time.Millisecond) {
+			if data, err := os.ReadFile(jpath); err == nil && strings.Contains(string(data), "helper-exit") {
+				break
+			}
+		}
 	}
 	o.closeMs = o.close1 - o.close0
 	// exec.Cmd.Wait sets ProcessState only after the kernel has reported the
 	// process' termination (and reaped it). Probing the pid with signal 0
 	// afterwards would race with pid reuse, so it is not done.
-	if cmd.ProcessState == nil {
+	if o.stuck {
+		o.aliveAfter = "Close never returned"
+	} else if cmd.ProcessState == nil {
 		o.aliveAfter = "the process has not been waited for"
 	} else if ws, ok := cmd.ProcessState.Sys().(syscall.WaitStatus); ok && !ws.Exited() && !ws.Signaled() {
 		o.aliveAfter = "the wait status says the process is neither exited nor killed"
@@ -404,7 +518,14 @@ func runCase(s spec, dir string, id int, ready func(), start <-chan struct{}) (o
 // judge is the oracle.
 func judge(s spec, o outcome) string {
 	if o.hang {
-		return fmt.Sprintf("class=close-hangs Close had not returned %d ms after the last escalation", hangAllowance)
+		extra := ""
+		if s.holders != "" {
+			extra = fmt.Sprintf(" while a descendant of the agent still held its standard streams (%s)", s.holders)
+		}
+		if o.zombie {
+			extra += "; the agent was an unreaped zombie"
+		}
+		return fmt.Sprintf("class=close-hangs Close had not returned %d ms after the last escalation%s", hangAllowance, extra)
 	}
 	if o.aliveAfter != "" {
 		return "class=alive-after-close Close returned but " + o.aliveAfter
@@ -615,12 +736,34 @@ func parseLine(l string) (spec, bool) {
 	if v[0] < 0 || v[1] < 0 || v[2] < 0 {
 		return spec{}, false
 	}
-	return spec{delay: v[0], g1: v[1], g2: v[2], self: v[3], onStdin: v[4], onTerm: v[5]}, true
+	sp := spec{delay: v[0], g1: v[1], g2: v[2], self: v[3], onStdin: v[4], onTerm: v[5]}
+	if len(f) >= 9 && f[7] != "=" && f[8] != "=" {
+		if f[7] != "-" {
+			for _, ch := range f[7] {
+				if !strings.ContainsRune("eoi", ch) {
+					return spec{}, false
+				}
+			}
+			sp.holders = f[7]
+		}
+		switch f[8] {
+		case "R":
+			sp.recv = true
+		case "N":
+		default:
+			return spec{}, false
+		}
+	}
+	return sp, true
 }
 
 func main() {
-	if len(os.Args) >= 6 && os.Args[1] == "c35agent" {
+	if len(os.Args) >= 9 && os.Args[1] == "c35agent" {
 		agentMain(os.Args[2:])
+		return
+	}
+	if len(os.Args) >= 5 && os.Args[1] == "c35helper" {
+		helperMain(os.Args[2:])
 		return
 	}
 	// The comparisons below need a responsive host; ask for scheduling priority
@@ -663,9 +806,24 @@ func main() {
 				spec{delay: 0, g1: G1, g2: G2, self: -1, onStdin: -1, onTerm: 100},
 				spec{delay: 0, g1: G1, g2: G2, self: -1, onStdin: -1, onTerm: -1},
 				spec{delay: 600, g1: G1, g2: G2, self: 0, onStdin: -1, onTerm: -1, pre: true},
+				// every termination class with a descendant that keeps standard error
+				// (and separately: output, input, everything) open and outlives the agent
+				spec{delay: 1200, g1: G1, g2: G2, self: 300, onStdin: -1, onTerm: -1, holders: "e", recv: true},
+				spec{delay: 0, g1: G1, g2: G2, self: -1, onStdin: 100, onTerm: -1, holders: "e", recv: true},
+				spec{delay: 0, g1: G1, g2: G2, self: -1, onStdin: -1, onTerm: 100, holders: "e", recv: true},
+				spec{delay: 0, g1: G1, g2: G2, self: -1, onStdin: -1, onTerm: -1, holders: "e", recv: true},
+				spec{delay: 0, g1: G1, g2: G2, self: -1, onStdin: 100, onTerm: -1, holders: "o", recv: true},
+				spec{delay: 0, g1: G1, g2: G2, self: -1, onStdin: 100, onTerm: -1, holders: "i", recv: true},
+				spec{delay: 0, g1: G1, g2: G2, self: -1, onStdin: -1, onTerm: 100, holders: "eoi", recv: true},
+				spec{delay: 0, g1: G1, g2: G2, self: -1, onStdin: -1, onTerm: -1, holders: "eo", recv: false},
 			)
-			for i := 0; i < c.Size(187, 3195); i++ {
-				specs = append(specs, gen(c.R, G1, G2))
+			for i := 0; i < c.Size(179, 3187); i++ {
+				sp := gen(c.R, G1, G2)
+				sp.recv = c.R.Chance(2, 3)
+				if c.R.Chance(2, 5) {
+					sp.holders = c.R.Pick("e", "e", "e", "o", "i", "eo", "ei", "oi", "eoi")
+				}
+				specs = append(specs, sp)
 			}
 		}
 		// Agents mostly sleep: run many cases at once.
@@ -709,7 +867,13 @@ func main() {
 			if s.pre {
 				c.Count("already-exited-before-close")
 			}
-			c.Case(s.line(o.stage), o.stage, verdict, fmt.Sprintf("%s/%d/%v/%v/%v", want, s.delay, s.self >= 0, s.onStdin >= 0, s.onTerm >= 0))
+			if s.holders != "" {
+				c.Count("descendant-holds:" + s.holders)
+			}
+			if s.recv {
+				c.Count("stderr-receiver")
+			}
+			c.Case(s.line(o.stage), o.stage, verdict, fmt.Sprintf("%s/%d/%v/%v/%v/%s/%v", want, s.delay, s.self >= 0, s.onStdin >= 0, s.onTerm >= 0, s.holders, s.recv))
 		}
 	})
 }
